@@ -790,6 +790,9 @@ func GenSchedPlan(seed uint64, idx int, prop string) *plan.SchedPlan {
 	if prop == "C13" && idx%53 == 11 {
 		return genBigDistinct(p, r, uniq)
 	}
+	if prop == "C13" && idx%61 == 17 {
+		return genGrowing(p, r)
+	}
 	if prop == "C12" {
 		// (plans from FirstUseBase on are all hammer-shaped: the first-use phase of
 		// the check gives each of them a process of its own)
@@ -984,6 +987,54 @@ func genBigDistinct(p *plan.SchedPlan, r *plan.Rand, uniq string) *plan.SchedPla
 	var ops []plan.SOp
 	for i, n := 0, r.Range(3, 6); i < n; i++ {
 		ops = append(ops, plan.SOp{Kind: kind, Obj: 0, Datum: []int{0, 0, 1}[r.Intn(3)]})
+	}
+	p.Tasks = [][]plan.SOp{ops}
+	return p
+}
+
+// genGrowing (C13): one object sees lists of 9..40 elements in seeded order,
+// mostly shorter ones first, and the element that decides sits near the end of
+// the longest: whatever the object sizes by the longest list it has seen so
+// far (index tables, scratch buffers, per-element caches) has to grow between
+// calls and is used beyond its old size at once.
+func genGrowing(p *plan.SchedPlan, r *plan.Rand) *plan.SchedPlan {
+	nData := r.Range(3, 6)
+	type dl struct{ idx, n int }
+	var lens []dl
+	maxN := 0
+	for i := 0; i < nData; i++ {
+		d := DatumSpec{Gen: "longlist", Seed: r.Uint64() % 1000000}
+		p.Data = append(p.Data, d)
+		n := 0
+		if m, ok := Build(d).(map[string]interface{}); ok {
+			n, _ = m["n"].(int)
+		}
+		lens = append(lens, dl{i, n})
+		if n > maxN {
+			maxN = n
+		}
+	}
+	j := maxN - 1 - r.Intn(3)
+	if j < 0 {
+		j = 0
+	}
+	op := []string{"any", "all"}[r.Intn(2)]
+	cmp := map[string]string{"any": "==", "all": "!="}[op]
+	body := []string{
+		fmt.Sprintf("%s xs as x { x %s %d }", op, cmp, 100+j),
+		fmt.Sprintf("%s ss as x { x %s \"s%d\" }", op, cmp, j),
+		fmt.Sprintf("%s items as i, it { it.X %s %d }", op, cmp, 300+j),
+		fmt.Sprintf("%s \"/m/list\" as x { x %s %d }", op, cmp, 200+j-j%2),
+	}[r.Intn(4)]
+	p.Objects = []ObjSpec{{Kind: "evaluator", Expr: body}}
+	p.Primed = []bool{false}
+	sort.Slice(lens, func(a, b int) bool { return lens[a].n < lens[b].n })
+	var ops []plan.SOp
+	for _, l := range lens {
+		ops = append(ops, plan.SOp{Kind: "eval", Obj: 0, Datum: l.idx})
+		if r.Chance(0.3) {
+			ops = append(ops, plan.SOp{Kind: "eval", Obj: 0, Datum: lens[r.Intn(len(lens))].idx})
+		}
 	}
 	p.Tasks = [][]plan.SOp{ops}
 	return p
@@ -1337,6 +1388,7 @@ type schedResult struct {
 func planHash(p *plan.SchedPlan) uint64 {
 	q := *p
 	q.Build, q.Expect, q.RefOut, q.Procs = "", "", nil, 0
+	q.SliceFrom, q.SliceStride, q.SliceK = 0, 0, 0
 	b, _ := json.Marshal(&q)
 	return hashBytes(b)
 }
@@ -1587,6 +1639,7 @@ func workerSchedGenExec(cfg WorkerCfg) int {
 		}
 		p := GenSchedPlan(cfg.Seed, idx, prop)
 		p.Aged = aged // a replay ages its process the same way first
+		p.SliceFrom, p.SliceStride, p.SliceK = cfg.From, cfg.Stride, cfg.K
 		abortIndex = idx
 		var sr schedResult
 		var findings []Finding
